@@ -1,37 +1,114 @@
 import H3.Drv.Util
 import H3.Model.Session
-/-! Driver engine `wt` (C19): the oracle computed from the scenario line.  The session id is the
-    stream id of the CONNECT request that `conn.WT` accepts (the bidirectional stream the peer
-    opened most recently before it — the generator opens exactly one unanswered request before
-    `conn.WT`); streams the server opens start with the WebTransport header carrying that id;
-    incoming WebTransport streams report the session id the peer wrote and deliver exactly the
-    bytes after the header; uni streams are surfaced only when the extension is enabled. -/
+import H3.Model.Datagram
+/-! Driver engine `wt` (C19, and the datagram part of C18 over the simulated transport).
+
+    The scenario line is interpreted twice, token by token:
+
+    * the **model** half runs the executable models of the code: `FS.pollNext` / `UniAccept.resolve`
+      for the stream headers, `Session.readLim` over `Session.pollRead` for reads through the
+      `AsyncRead` impls with the caller's buffer sizes, `WriteBuf.WB.step` / `Session.sendSlice` for
+      what the transport accepts under the write credit it has, `Datagram.encode` / `decode`;
+    * the **spec** half is computed from the property text only: the session id is the stream id of
+      the CONNECT request that `conn.WT` accepts; a stream the server opens carries the stream type
+      (0x41 / 0x54) and that id as RFC 9000 varints, then exactly the bytes handed to the write calls,
+      in order (a flow-controlled byte pipe: as many of them as the peer has given credit for); an
+      incoming stream reports the id the peer wrote and delivers exactly the bytes behind the header,
+      the end only behind the last of them; uni streams are surfaced only when the extension is on; a
+      datagram carries varint(CONNECT id / 4) then the payload, a truncated or too large quarter id
+      is H3_DATAGRAM_ERROR.  Where the spec has no opinion (how many bytes each call moved) it
+      writes `*`.
+
+    Tasks run their commands one after the other; a command that has to wait (for data, for write
+    credit, for a datagram) blocks its task, later commands of the task queue behind it. -/
 namespace H3.Drv.C19
 open H3.Drv H3.Session
+open H3.FS (Ev)
+open H3.WriteBuf (WB)
+
+/-- a stream the peer opened -/
+structure Peer where
+  id : Nat
+  /-- before the accept: every event delivered so far; afterwards: what the transport still has -/
+  evs : List Ev := []
+  /-- the `BufRecvStream` of the accepted stream -/
+  rd : Option Rd := none
+  /-- spec half: every byte delivered before the end; how the peer ended the stream (`some none` =
+      FIN, `some (some c)` = RESET); payload bytes handed to the application so far -/
+  bytes : List Nat := []
+  ended : Option (Option Nat) := none
+  taken : Nat := 0
+
+/-- the send side of a stream h3 writes on -/
+structure Send where
+  id : Nat
+  /-- model half: write credit (`none` = unlimited), bytes the transport accepted -/
+  credit : Option Nat
+  wire : List Nat := []
+  /-- spec half: a byte pipe with flow control -/
+  sCredit : Option Nat
+  sQueue : List Nat := []
+  sWire : List Nat := []
+  fin : Bool := false
+  rst : Option Nat := none
+  /-- the peer sent STOP_SENDING -/
+  stopped : Option Nat := none
+  /-- first `stop_sending` code h3 issued on the receive side of this stream -/
+  stop : Option Nat := none
+  shown : Bool := false
+
+inductive Job where
+  /-- a `WriteBuf` being handed to the transport: stream header (`ob`/`ou`) or `send_data` (`sd`) -/
+  | wbuf (op : String) (sid : Nat) (w : WB) (okText : String)
+  /-- a byte slice being handed over by repeated `poll_write` / `poll_send` -/
+  | slice (op : String) (sid : Nat) (left : List Nat) (counts : List Nat)
+  /-- a read loop through `AsyncRead::poll_read` -/
+  | read (op : String) (sid : Nat) (cyc : List Nat) (pos : Nat) (calls : Option Nat)
+      (acc : List Nat) (counts : List Nat)
+  /-- `poll_data` until the end -/
+  | readAll (sid : Nat) (acc : List Nat)
+  | dgr
+  /-- `accept_uni` with the extension off -/
+  | forever (op : String)
+
+def Job.op : Job → String
+  | .wbuf op .. => op
+  | .slice op .. => op
+  | .read op .. => op
+  | .readAll .. => "ra"
+  | .dgr => "dgr"
+  | .forever op => op
 
 structure St where
   wtEnabled : Bool
-  connect : Option Nat := none          -- stream id of the CONNECT request
-  rx : List (Nat × List Nat) := []      -- bytes delivered per peer stream
-  fins : List Nat := []
+  wc : Option Nat := none
+  connect : Option Nat := none
   lastBidi : Option Nat := none
   accepted : Bool := false
-  nextBidi : Nat := 1                   -- next server-initiated bidi stream id
-  nextUni : Nat := 15                   -- 3, 7, 11 are control / QPACK streams
-  opened : List (Nat × List Nat) := []  -- streams the server opened: id, bytes expected on the wire
-  out : List String := []
-  pendingUni : List Nat := []           -- peer uni WT streams not yet accepted (arrival order)
+  nextBidi : Nat := 1
+  nextUni : Nat := 15
+  peers : List Peer := []
+  sends : List Send := []
+  pendingUni : List Nat := []
   pendingBidi : List Nat := []
+  out : List String := []
+  spec : List String := []
+  blocked : List (String × Job) := []
+  queue : List (String × String) := []
+  dgRx : List (List Nat) := []
+  dgTx : List (List Nat) := []
+  dgTxSpec : List (List Nat) := []
+  dgErr : Bool := false
+  closed : Bool := false
+  /-- the peer closed the connection / it timed out (as `render_conn_err` prints it) -/
+  connErr : Option String := none
+  /-- the stream tasks that exist (`w<id>` once the stream is opened / accepted, `w<id>s` after `sp`) -/
+  tasks : List String := []
 
 def numPrefix (s : String) : Option (Nat × String) :=
   let ds := s.toList.takeWhile Char.isDigit
   if ds.isEmpty then none else
   (String.ofList ds).toNat?.map (fun n => (n, String.ofList (s.toList.drop ds.length)))
-
-def addRx (l : List (Nat × List Nat)) (sid : Nat) (b : List Nat) : List (Nat × List Nat) :=
-  if l.any (·.1 == sid) then l.map (fun p => if p.1 == sid then (p.1, p.2 ++ b) else p) else l ++ [(sid, b)]
-
-def rxOf (st : St) (sid : Nat) : List Nat := ((st.rx.find? (·.1 == sid)).map (·.2)).getD []
 
 /-- split `type varint, session varint, payload` with the RFC 9000 parser -/
 def parseHeader (bs : List Nat) : Option (Nat × Nat × List Nat) :=
@@ -41,94 +118,419 @@ def parseHeader (bs : List Nat) : Option (Nat × Nat × List Nat) :=
     | none => none
   | none => none
 
-def addOpened (l : List (Nat × List Nat)) (id : Nat) (b : List Nat) : List (Nat × List Nat) :=
-  if l.any (·.1 == id) then l.map (fun p => if p.1 == id then (p.1, p.2 ++ b) else p) else l ++ [(id, b)]
+def St.log (st : St) (m s : String) : St := { st with out := st.out ++ [m], spec := st.spec ++ [s] }
+def St.log1 (st : St) (m : String) : St := st.log m m
+
+def getPeer (st : St) (id : Nat) : Option Peer := st.peers.find? (·.id == id)
+def updPeer (st : St) (id : Nat) (f : Peer → Peer) : St :=
+  { st with peers := st.peers.map (fun p => if p.id == id then f p else p) }
+def getSend (st : St) (id : Nat) : Option Send := st.sends.find? (·.id == id)
+def updSend (st : St) (id : Nat) (f : Send → Send) : St :=
+  { st with sends := st.sends.map (fun p => if p.id == id then f p else p) }
+
+/-- bytes the script delivers before the stream ends, and how it ends -/
+def bytesBefore : List Ev → List Nat
+  | [] => []
+  | .chunk b :: r => b ++ bytesBefore r
+  | .pend :: r => bytesBefore r
+  | .fin :: _ => []
+  | .reset _ :: _ => []
+
+def fromEnd : List Ev → List Ev
+  | [] => []
+  | .chunk _ :: r => fromEnd r
+  | .pend :: r => fromEnd r
+  | e :: r => e :: r
+
+def joinNat (l : List Nat) : String := if l.isEmpty then "-" else ",".intercalate (l.map toString)
+
+/-- the spec's byte pipe: as many queued bytes as there is credit for go out, in order -/
+def Send.pipe (s : Send) : Send :=
+  let n := match s.sCredit with
+    | none => s.sQueue.length
+    | some c => min c s.sQueue.length
+  { s with sWire := s.sWire ++ s.sQueue.take n, sQueue := s.sQueue.drop n,
+           sCredit := s.sCredit.map (· - n) }
+
+/-- the transport's side of `poll_send` / `poll_ready` on a `WriteBuf` under write credit: it takes
+    `min(chunk, credit)` bytes per call and answers `Pending` at credit 0 -/
+def pumpWB : Nat → Option Nat → WB → List Nat × Option Nat × WB
+  | 0, c, w => ([], c, w)
+  | f+1, c, w =>
+    if w.remaining = 0 then ([], c, w) else
+    let k := match c with
+      | none => w.chunk.length
+      | some n => n
+    if k = 0 then ([], c, w) else
+    match w.step k with
+    | none => ([], c, w)
+    | some (o, w') =>
+      let r := pumpWB f (c.map (· - o.length)) w'
+      (o ++ r.1, r.2.1, r.2.2)
+
+def expand (cyc : List Nat) (pos n : Nat) : List Nat :=
+  (List.range n).map (fun i => cyc.getD ((pos + i) % cyc.length) 4096)
+
+def hdrPayload (p : Peer) : List Nat := ((parseHeader p.bytes).map (·.2.2)).getD []
+
+def endText : Option (Option Nat) → String
+  | some none => "end"
+  | some (some c) => s!"err:rterm:{c}"
+  | none => "open"
+
+def block (st : St) (task : String) (j : Job) : St := { st with blocked := st.blocked ++ [(task, j)] }
+
+/-- let a job make progress: it completes (one trace entry) or blocks its task again -/
+def runJob (st : St) (task : String) (job : Job) : St :=
+  match job with
+  | .forever op => block st task (.forever op)
+  | .dgr =>
+    -- the transport reports its failure before it looks at the queue; the spec has no opinion on which error
+    if let some e := st.connErr then st.log s!"{task}.dgr=err:conn:{e}" s!"{task}.dgr=err:*" else
+    match st.dgRx with
+    | [] => block st task .dgr
+    | d :: rest =>
+      let st := { st with dgRx := rest }
+      let m := match H3.Datagram.decode d with
+        | .ok sid p => (s!"dg:{sid}:{toHex p}", false)
+        | .datagramError => ("err:conn:local:H3_DATAGRAM_ERROR", true)
+      let s := match Varint.rfcDecode d with
+        | none => "err:conn:local:H3_DATAGRAM_ERROR"
+        | some (q, p) => if q * 4 > 2^62 - 1 then "err:conn:local:H3_DATAGRAM_ERROR" else s!"dg:{q * 4}:{toHex p}"
+      ({ st with dgErr := st.dgErr || m.2 }).log s!"{task}.dgr={m.1}" s!"{task}.dgr={s}"
+  | .wbuf op sid w okText =>
+    match getSend st sid with
+    | none => st
+    | some s =>
+      match s.stopped with
+      | some c => st.log1 s!"{task}.{op}=err:rterm:{c}"
+      | none =>
+        let r := pumpWB (w.remaining + 1) s.credit w
+        let st := updSend st sid (fun s => { s with wire := s.wire ++ r.1, credit := r.2.1 })
+        if r.2.2.remaining = 0 then
+          let st := if op == "ob" || op == "ou" then { st with tasks := st.tasks ++ [s!"w{sid}"] } else st
+          st.log1 s!"{task}.{op}={okText}"
+        else block st task (.wbuf op sid r.2.2 okText)
+  | .slice op sid left counts =>
+    match getSend st sid with
+    | none => st
+    | some s =>
+      let cnt := if op == "wr" then "" else s!":n={joinNat counts}"
+      -- nothing (left) to hand over: no call reaches the transport
+      if left.isEmpty then st.log s!"{task}.{op}=ok{cnt}" (if op == "wr" then s!"{task}.{op}=ok" else s!"{task}.{op}=ok:n=*") else
+      match s.stopped with
+      | some c => st.log s!"{task}.{op}=err:rterm:{c}{cnt}" (if op == "wr" then s!"{task}.{op}=err:rterm:{c}" else s!"{task}.{op}=err:rterm:{c}:n=*")
+      | none =>
+          let k := match s.credit with
+            | none => left.length
+            | some n => n
+          let r := sendSlice left [k]
+          let counts := if r.1.isEmpty then counts else counts ++ [r.1.length]
+          let st := updSend st sid (fun s => { s with wire := s.wire ++ r.1, credit := s.credit.map (· - r.1.length) })
+          if r.2.isEmpty then
+            let cnt := if op == "wr" then "" else s!":n={joinNat counts}"
+            st.log s!"{task}.{op}=ok{cnt}" (if op == "wr" then s!"{task}.{op}=ok" else s!"{task}.{op}=ok:n=*")
+          else block st task (.slice op sid r.2 counts)
+  | .read op sid cyc pos calls acc counts =>
+    match getPeer st sid with
+    | none => st
+    | some p =>
+      match p.rd with
+      | none => st
+      | some rd =>
+        let avail := rd.buf.flatten.length + (bytesBefore p.evs).length
+        let n := match calls with
+          | none => avail + 2
+          | some m => min m (avail + 2)
+        let r := readLim (expand cyc pos n) rd p.evs
+        let acc := acc ++ r.pieces.flatten
+        let counts := counts ++ r.pieces.map List.length
+        let st := updPeer st sid (fun p => { p with rd := some r.s, evs := r.script })
+        let finish (st : St) (endM : String) (more : Bool) : St :=
+          let pay := (hdrPayload p).drop p.taken
+          let sdata := if more then pay.take acc.length else pay
+          let send := if more then "more" else endText p.ended
+          (updPeer st sid (fun p => { p with taken := p.taken + sdata.length })).log
+            s!"{task}.{op}=data:{toHex acc}:n={joinNat counts}:{endM}"
+            s!"{task}.{op}=data:{toHex sdata}:n=*:{send}"
+        match r.fin with
+        | .eof => finish st "end" false
+        | .err c => finish st s!"err:rterm:{c}" false
+        | .more => finish st "more" true
+        | .open_ =>
+          block st task (.read op sid cyc (pos + r.pieces.length) (calls.map (· - r.pieces.length)) acc counts)
+  | .readAll sid acc =>
+    match getPeer st sid with
+    | none => st
+    | some p =>
+      match p.rd with
+      | none => st
+      | some rd =>
+        let acc := acc ++ readAll rd.buf [bytesBefore p.evs]
+        let rest := fromEnd p.evs
+        let st := updPeer st sid (fun p => { p with rd := some { rd with buf := [] }, evs := rest })
+        let finish (st : St) (endM : String) : St :=
+          let pay := (hdrPayload p).drop p.taken
+          (updPeer st sid (fun p => { p with taken := p.taken + pay.length })).log
+            s!"{task}.ra=data:{toHex acc}:{endM}" s!"{task}.ra=data:{toHex pay}:{endText p.ended}"
+        match rest with
+        | .fin :: _ => finish st "end"
+        | .reset c :: _ => finish st s!"err:rterm:{c}"
+        | _ => block st task (.readAll sid acc)
+
+def taskSid (task : String) : Option Nat :=
+  match task.toList with
+  | 'w' :: r => (String.ofList (r.takeWhile Char.isDigit)).toNat?
+  | _ => none
+
+def parseSizes (arg : String) : List Nat × Option Nat :=
+  let parts := arg.splitOn ":"
+  let sizes := ((parts.headD "").splitOn ",").filterMap String.toNat?
+  let sizes := if sizes.isEmpty then [4096] else sizes
+  (sizes, (parts.getD 1 "").toNat?)
+
+/-- the spec half learns that bytes were handed to a write call -/
+def handSpec (st : St) (sid : Nat) (bs : List Nat) : St :=
+  updSend st sid (fun s => if s.stopped.isSome then s else ({ s with sQueue := s.sQueue ++ bs }).pipe)
+
+def newSend (st : St) (id : Nat) (shown : Bool) : St :=
+  if (getSend st id).isSome then st
+  else { st with sends := st.sends ++ [{ id := id, credit := st.wc, sCredit := st.wc, shown := shown }] }
+
+/-- a task starts a command -/
+def exec (st : St) (task cmd : String) : St :=
+  let parts := cmd.splitOn ":"
+  let op := parts.headD ""
+  let arg := ":".intercalate (parts.drop 1)
+  if task == "conn" then
+    match op with
+    | "WT" =>
+      match st.lastBidi with
+      | some c => ({ st with connect := some c, accepted := true }).log1
+          s!"conn.WT=ok:connect={c}:session={acceptedSessionId c}"
+      | none => st
+    | "sid" =>
+      match st.connect with
+      | some c => st.log1 s!"conn.sid={acceptedSessionId c}"
+      | none => st
+    | "ob" =>
+      let sess := arg.toNat?.getD (st.connect.getD 0)
+      let id := st.nextBidi
+      let st := newSend { st with nextBidi := id + 4 } id true
+      let st := handSpec st id (bidiHeader sess)
+      match H3.WriteBuf.fromBidiHeader sess with
+      | some w => runJob st task (.wbuf "ob" id w s!"ok:{id}")
+      | none => st.log1 "conn.ob=panic"
+    | "ou" =>
+      let sess := arg.toNat?.getD (st.connect.getD 0)
+      let id := st.nextUni
+      let st := newSend { st with nextUni := id + 4 } id true
+      let st := handSpec st id (uniHeader sess)
+      match H3.WriteBuf.fromUniHeader (.webTransportUni sess) with
+      | some w => runJob st task (.wbuf "ou" id w s!"ok:{id}")
+      | none => st.log1 "conn.ou=panic"
+    | "ab" =>
+      if let some e := st.connErr then st.log s!"conn.ab=err:conn:{e}" "conn.ab=err:*" else
+      if st.dgErr then ({ st with closed := true }).log1 "conn.ab=err:conn:local:H3_DATAGRAM_ERROR" else
+      match st.pendingBidi with
+      | b :: r =>
+        match getPeer st b with
+        | none => st
+        | some p =>
+          match H3.FS.pollNext H3.FS.frameDec {} p.evs, parseHeader p.bytes with
+          | (.frame (.webTransport x), s, rest), some (_, sp, _) =>
+            let st := updPeer { st with pendingBidi := r } b (fun p => { p with rd := some (Rd.ofFS s), evs := rest })
+            let st := updSend st b (fun s => { s with shown := true })
+            let st := { st with tasks := st.tasks ++ [s!"w{b}"] }
+            st.log s!"conn.ab=bidi:session={x}:stream={b}" s!"conn.ab=bidi:session={sp}:stream={b}"
+          | _, _ => st
+      | [] => st
+    | "au" =>
+      if let some e := st.connErr then st.log s!"conn.au=err:{e}" "conn.au=err:*" else
+      if st.dgErr then ({ st with closed := true }).log1 "conn.au=err:local:H3_DATAGRAM_ERROR" else
+      if !st.wtEnabled then block st task (.forever "au") else
+      match st.pendingUni with
+      | u :: r =>
+        match getPeer st u with
+        | none => st
+        | some p =>
+          match H3.UniAccept.resolve (p.evs.length + 1) {} p.evs, parseHeader p.bytes with
+          | .resolved s rest, some (_, sp, _) =>
+            let st := updPeer { st with pendingUni := r } u (fun p => { p with rd := some (Rd.ofUni s), evs := uniScript s rest })
+            let st := newSend st u true
+            let st := { st with tasks := st.tasks ++ [s!"w{u}"] }
+            st.log s!"conn.au=uni:session={s.id.getD 0}:stream={u}" s!"conn.au=uni:session={sp}:stream={u}"
+          | _, _ => st
+      | [] => st
+    | "dgs" =>
+      if st.connErr.isSome then st.log1 "conn.dgs=err" else
+      match st.connect, parseHex arg with
+      | some c, some p =>
+        let m := match H3.Datagram.new c p with
+          | some _ => (H3.Datagram.encode c p).view
+          | none => []
+        ({ st with dgTx := st.dgTx ++ [m], dgTxSpec := st.dgTxSpec ++ [Varint.encode (c / 4) ++ p] }).log1 "conn.dgs=ok"
+      | _, _ => st
+    | "dgr" => runJob st task .dgr
+    | _ => st
+  else
+    match taskSid task with
+    | none => st
+    | some id =>
+      let bytes := (parseHex arg).getD []
+      match op with
+      | "wr" => runJob (handSpec st id bytes) task (.slice "wr" id bytes [])
+      | "wf" => runJob (handSpec st id bytes) task (.slice "wf" id bytes [])
+      | "wt" => runJob (handSpec st id bytes) task (.slice "wt" id bytes [])
+      | "sd" =>
+        let st := handSpec st id ([0x00] ++ Varint.encode bytes.length ++ bytes)
+        match H3.WriteBuf.fromFrame (.data bytes) with
+        | some w => runJob st task (.wbuf "sd" id w "ok")
+        | none => st.log1 s!"{task}.sd=panic"
+      | "fi" => (updSend st id (fun s => { s with fin := true })).log1 s!"{task}.fi=ok"
+      | "cl" => (updSend st id (fun s => { s with fin := true })).log1 s!"{task}.cl=ok"
+      | "sh" => (updSend st id (fun s => { s with fin := true })).log1 s!"{task}.sh=ok"
+      | "rst" =>
+        let c := arg.toNat?.getD 0
+        (updSend st id (fun s => { s with rst := some (s.rst.getD c) })).log1 s!"{task}.rst=ok"
+      | "ss" =>
+        let c := arg.toNat?.getD 0
+        (updSend st id (fun s => { s with stop := some (s.stop.getD c) })).log1 s!"{task}.ss=ok"
+      | "sp" => ({ st with tasks := st.tasks ++ [task ++ "s"] }).log1 s!"{task}.sp=ok"
+      | "ra" => runJob st task (.readAll id [])
+      | "rf" =>
+        let (cyc, calls) := parseSizes arg
+        runJob st task (.read "rf" id cyc 0 calls [] [])
+      | "rt" =>
+        let (cyc, calls) := parseSizes arg
+        runJob st task (.read "rt" id cyc 0 calls [] [])
+      | _ => st
+
+def isBlocked (st : St) (task : String) : Bool := st.blocked.any (·.1 == task)
+
+/-- a task that has become free runs the commands queued for it -/
+def drainQueue : Nat → St → String → St
+  | 0, st, _ => st
+  | f+1, st, task =>
+    if isBlocked st task then st else
+    match st.queue.find? (·.1 == task) with
+    | none => st
+    | some (_, cmd) =>
+      let q := st.queue.span (·.1 != task)
+      drainQueue f (exec { st with queue := q.1 ++ q.2.drop 1 } task cmd) task
+
+/-- after something changed on the transport: every blocked job gets another go -/
+def kick (st : St) : St :=
+  st.blocked.foldl (fun st (task, _) =>
+    match st.blocked.find? (·.1 == task) with
+    | none => st
+    | some (_, job) =>
+      let st := runJob { st with blocked := st.blocked.filter (·.1 != task) } task job
+      drainQueue (st.queue.length + 1) st task) st
+
+def addEv (st : St) (sid : Nat) (e : Ev) : St :=
+  updPeer st sid (fun p =>
+    match p.ended, e with
+    | some _, _ => p
+    | none, .chunk b => { p with evs := p.evs ++ [e], bytes := p.bytes ++ b }
+    | none, .fin => { p with evs := p.evs ++ [e], ended := some none }
+    | none, .reset c => { p with evs := p.evs ++ [e], ended := some (some c) }
+    | none, .pend => p)
+
+def UNLIMITED : Nat := 2^64 - 1
 
 def step (st : St) (op : String) : St :=
+  if op.startsWith "#" then st else
   match op.toList with
   | 'o' :: rest =>
     match (String.ofList rest).toNat? with
     | some sid =>
+      let st := if (getPeer st sid).isSome then st else { st with peers := st.peers ++ [{ id := sid }] }
       if sid % 4 == 0 then
+        let st := newSend st sid false
         (if st.accepted then { st with pendingBidi := st.pendingBidi ++ [sid] } else { st with lastBidi := some sid })
       else if sid % 4 == 2 && sid != 2 then { st with pendingUni := st.pendingUni ++ [sid] }
       else st
     | none => st
   | 's' :: rest =>
     match numPrefix (String.ofList rest) with
-    | some (sid, r) => { st with rx := addRx st.rx sid ((parseHex ((r.drop 1).toString)).getD []) }
+    | some (sid, r) => kick (addEv st sid (.chunk ((parseHex ((r.drop 1).toString)).getD [])))
     | none => st
   | 'f' :: rest =>
     match (String.ofList rest).toNat? with
-    | some sid => { st with fins := st.fins ++ [sid] }
+    | some sid => kick (addEv st sid .fin)
+    | none => st
+  | 'r' :: rest =>
+    match numPrefix (String.ofList rest) with
+    | some (sid, r) => kick (addEv st sid (.reset (((r.drop 1).toString).toNat?.getD 0)))
+    | none => st
+  | 'x' :: rest =>
+    match numPrefix (String.ofList rest) with
+    | some (sid, r) =>
+      let c := ((r.drop 1).toString).toNat?.getD 0
+      kick (updSend st sid (fun s => { s with stopped := some (s.stopped.getD c), sQueue := [] }))
+    | none => st
+  | 'C' :: rest =>
+    match (String.ofList rest).toNat? with
+    | some c => kick { st with connErr := some (st.connErr.getD s!"remote:app:{c}") }
+    | none => st
+  | ['T'] => kick { st with connErr := some (st.connErr.getD "timeout") }
+  | 'd' :: ':' :: rest => kick { st with dgRx := st.dgRx ++ [(parseHex (String.ofList rest)).getD []] }
+  | 'g' :: 'w' :: rest =>
+    match numPrefix (String.ofList rest) with
+    | some (sid, r) =>
+      let n := ((r.drop 1).toString).toNat?.getD 0
+      kick (updSend st sid (fun s =>
+        ({ s with credit := s.credit.map (· + n), sCredit := s.sCredit.map (· + n) }).pipe))
+    | none => st
+  | 'c' :: 'w' :: rest =>
+    match numPrefix (String.ofList rest) with
+    | some (sid, r) =>
+      let n := ((r.drop 1).toString).toNat?.getD 0
+      let c := if n ≥ UNLIMITED then none else some n
+      kick (updSend st sid (fun s => ({ s with credit := c, sCredit := c }).pipe))
     | none => st
   | _ =>
     match op.splitOn "." with
-    | ["conn", "WT"] =>
-      match st.lastBidi with
-      | some c => { st with connect := some c, accepted := true,
-                            out := st.out ++ [s!"conn.WT=ok:connect={c}:session={acceptedSessionId c}"] }
-      | none => st
-    | ["conn", "sid"] =>
-      match st.connect with
-      | some c => { st with out := st.out ++ [s!"conn.sid={acceptedSessionId c}"] }
-      | none => st
-    | ["conn", cmd] =>
-      let parts := cmd.splitOn ":"
-      let sess := match parts with
-        | [_, n] => n.toNat?.getD (st.connect.getD 0)
-        | _ => st.connect.getD 0
-      match parts.headD "" with
-      | "ob" =>
-        let id := st.nextBidi
-        { st with nextBidi := id + 4, opened := addOpened st.opened id (bidiHeader sess),
-                  out := st.out ++ [s!"conn.ob=ok:{id}"] }
-      | "ou" =>
-        let id := st.nextUni
-        { st with nextUni := id + 4, opened := addOpened st.opened id (uniHeader sess),
-                  out := st.out ++ [s!"conn.ou=ok:{id}"] }
-      | "ab" =>
-        match st.pendingBidi with
-        | b :: r =>
-          match parseHeader (rxOf st b) with
-          | some (_, s, _) => { st with pendingBidi := r, out := st.out ++ [s!"conn.ab=bidi:session={s}:stream={b}"] }
-          | none => st
-        | [] => st
-      | "au" =>
-        if !st.wtEnabled then { st with out := st.out ++ ["conn.au=pending"] } else
-        match st.pendingUni with
-        | u :: r =>
-          match parseHeader (rxOf st u) with
-          | some (_, s, _) => { st with pendingUni := r, out := st.out ++ [s!"conn.au=uni:session={s}:stream={u}"] }
-          | none => st
-        | [] => st
-      | _ => st
-    | [task, cmd] =>
-      match task.toList with
-      | 'w' :: ds =>
-        match (String.ofList ds).toNat? with
-        | some id =>
-          match cmd.splitOn ":" with
-          | ["wr", h] => { st with opened := addOpened st.opened id ((parseHex h).getD []),
-                                   out := st.out ++ [s!"w{id}.wr=ok"] }
-          | ["ra"] =>
-            match parseHeader (rxOf st id) with
-            | some (_, _, payload) => { st with out := st.out ++ [s!"w{id}.ra=data:{toHex payload}:end"] }
-            | none => st
-          | _ => st
-        | none => st
-      | _ => st
+    | task :: rest@(_ :: _) =>
+      let cmd := ".".intercalate rest
+      if (taskSid task).isSome && !st.tasks.contains task then
+        st.log1 s!"{task}.{(cmd.splitOn ":").headD ""}=no-task"
+      else if isBlocked st task || st.queue.any (·.1 == task) then { st with queue := st.queue ++ [(task, cmd)] }
+      else exec st task cmd
     | _ => st
+
+def insertBy {α} (lt : α → α → Bool) (x : α) : List α → List α
+  | [] => [x]
+  | y :: r => if lt x y then x :: y :: r else y :: insertBy lt x r
+
+def sortBy {α} (lt : α → α → Bool) (l : List α) : List α := l.foldl (fun acc x => insertBy lt x acc) []
+
+def cfgNat (cfg key : String) : Option Nat :=
+  ((cfg.splitOn ",").filterMap (fun kv =>
+    match kv.splitOn "=" with
+    | [k, v] => if k == key then v.toNat? else none
+    | _ => none)).head?
 
 def handle : List String → String
   | "wt" :: _ :: cfg :: ops =>
     let enabled := (cfg.splitOn ",").contains "wt=1"
-    let st := ops.foldl step { wtEnabled := enabled }
-    let sorted := st.opened.foldl (fun acc p =>
-      (acc.takeWhile (·.1 < p.1)) ++ [p] ++ (acc.dropWhile (·.1 < p.1))) []
-    let tx := sorted.map (fun (id, b) => s!"{id}:tx={toHex b}")
-    let out := " ".intercalate (st.out ++ tx)
-    out ++ " ## " ++ out
+    let st := ops.foldl step { wtEnabled := enabled, wc := cfgNat cfg "wc" }
+    let pend := (sortBy (fun (a b : String × Job) => decide (a.1 < b.1)) st.blocked).map
+      (fun (t, j) => s!"{t}.{j.op}=pending")
+    let shown := sortBy (fun (a b : Send) => decide (a.id < b.id)) (st.sends.filter (·.shown))
+    let flags (s : Send) : String :=
+      (if s.fin then ",fin" else "") ++
+      (match s.rst with | some c => s!",rst={c}" | none => "") ++
+      (match s.stop with | some c => s!",stop={c}" | none => "") ++
+      (if st.blocked.any (fun (_, j) => match j with | .wbuf "sd" sid .. => sid == s.id | _ => false) then ",writing" else "")
+    let txM := shown.map (fun s => s!"{s.id}:tx={toHex s.wire}{flags s}")
+    let txS := shown.map (fun s => s!"{s.id}:tx={toHex s.sWire}{flags s}")
+    let closed := if st.closed then ["closed=[51]"] else []
+    let dg (l : List (List Nat)) : List String :=
+      if l.isEmpty then [] else ["dgrams=[" ++ ",".intercalate (l.map toHex) ++ "]"]
+    " ".intercalate (st.out ++ pend ++ txM ++ closed ++ dg st.dgTx) ++ " ## " ++
+      " ".intercalate (st.spec ++ pend ++ txS ++ closed ++ dg st.dgTxSpec)
   | _ => "bad-op"
 
 end H3.Drv.C19
